@@ -264,10 +264,13 @@ def run(report, p):
     report.not_decided += ["numeric equality with an independent evaluation of the definition on concrete trees", "rename / content-edit relations at run time"]
 
 
-def directory_recording_loops(p, ad):
+def directory_recording_loops(p, ad, cpar=None, spar=None):
     """loops that build one MHLHashEntry per format for a directory record, in `ad` itself or in a helper it calls:
-    [(function, loop, name of the content mapping there, name of the structure mapping there, record receiving the entries in `ad`)]"""
+    [(function, loop, name of the content mapping there, name of the structure mapping there, record receiving the entries in `ad`)]
+    cpar / spar: names of the content / structure mapping in `ad` (default: its 4th and 5th parameter)"""
     out = []
+    cpar = cpar or ad.params[3]
+    spar = spar or ad.params[4]
 
     def loops_in(f):
         return [n for n in walk_no_nested(f.node) if isinstance(n, ast.For) and any(isinstance(x, ast.Call) and norm(x.func).endswith("MHLHashEntry") for x in ast.walk(n))]
@@ -279,15 +282,15 @@ def directory_recording_loops(p, ad):
         return None
 
     for lp in loops_in(ad):
-        out.append((ad, lp, ad.params[3], ad.params[4], recv_of(lp)))
+        out.append((ad, lp, cpar, spar, recv_of(lp)))
     for call, tg in p.calls[ad.qual]:
         for t in tg:
             h = p.funcs.get(t)
             if h is None or h is ad or not loops_in(h):
                 continue
             b = {k: norm(v) for k, v in p.bind_args(h, call).items() if v is not None}
-            cname = next((k for k, v in b.items() if v == ad.params[3]), None)
-            sname = next((k for k, v in b.items() if v == ad.params[4]), None)
+            cname = next((k for k, v in b.items() if v == cpar), None)
+            sname = next((k for k, v in b.items() if v == spar), None)
             for lp in loops_in(h):
                 r = recv_of(lp)
                 out.append((h, lp, cname, sname, b.get(r, None)))
